@@ -8,6 +8,7 @@
 #define CNL_IMPL_WIDE_INTEGER_OPERATORS_H
 
 #include "../config.h"
+#include "../num_traits/rep_of.h"
 #include "../num_traits/to_rep.h"
 #include "../ostream.h"
 #include "definition.h"
@@ -16,6 +17,7 @@
 #if defined(CNL_IOSTREAMS_ENABLED)
 #include <ostream>
 #endif
+#include <type_traits>
 
 /// compositional numeric library
 namespace cnl {
@@ -24,7 +26,13 @@ namespace cnl {
         template<int Digits, typename Narrowest>
         auto& operator<<(std::ostream& out, wide_integer<Digits, Narrowest> const& value)
         {
-            return out << to_rep(value);
+            using rep = rep_of_t<wide_integer<Digits, Narrowest>>;
+            if constexpr (std::is_integral_v<rep> && sizeof(rep) == 1) {
+                // a number whose representation is a character type is still a number
+                return out << static_cast<int>(to_rep(value));
+            } else {
+                return out << to_rep(value);
+            }
         }
 #endif
     }
